@@ -62,7 +62,8 @@ def native_scenarios(tier):
         scs.append(dict(base, kind="drop_sweep", tag="put:drop"))
         # frames of length zero (an HTTP/2 empty DATA frame, an empty Bytes of a custom body) are frames, not the end of the body
         for fr in (["aaaa", "", "cc"], ["", "bbbb"], ["aaaa", ""]):
-            eb = dict(base, frames=fr)
+            # (no declared checksums here: a declared checksum of the whole content would reject a truncated upload on its own)
+            eb = dict(base, frames=fr, checksums={})
             scs.append(dict(eb, tag="put:empty-frame:%s" % "|".join(fr)))
             for k in range(len(fr) + 1):
                 scs.append(dict(eb, fail_at=k, tag="put:empty-frame:%s:fail@%d" % ("|".join(fr), k)))
@@ -120,7 +121,8 @@ def classify(sc, o):
         N["sums"] = "new"
         s = a["sums"] or {}
         n_set = sum(1 for x in ALGS if s.get(x))
-        got["sums"] = None if a["content"] is None else ("new" if n_set == 4 else ("prev" if n_set == 1 else "other:%d" % n_set))
+        n_decl = sum(1 for x in ALGS if (sc.get("checksums") or {}).get(x))          # 4 or 0 in this family
+        got["sums"] = None if a["content"] is None else ("new" if n_set == n_decl else ("prev" if n_set == 1 else "other:%d" % n_set))
     if kind == "ok" and got != N:
         out.append("ok-but-incomplete:%s" % op)
     if kind == "err" and got != P:
